@@ -59,7 +59,7 @@ func genKeyCase(t *rapid.T) KeyCase {
 func TestC17Keys(t *testing.T) {
 	rapid.Check(t, func(rt *rapid.T) {
 		c := genKeyCase(rt)
-		st, err := pbt.Safe(runKeys, c)
+		st, err := pbt.SafeJ("C17", "keys", runKeys, c)
 		if st == nil {
 			st = &keyStats{}
 		}
@@ -97,7 +97,7 @@ func TestC17Admit(t *testing.T) {
 		if c.Record && c.Proto == "mcast" {
 			c.Proto = "udp"
 		}
-		status, err := runAdmit(c)
+		status, err := pbt.SafeJ("C17", "admit", runAdmit, c)
 		refuse, _ := c.mustRefuse()
 		labels := []string{fmt.Sprintf("tls:%v", c.TLS), "profile:" + c.Profile, "proto:" + c.Proto, "keymgmt:" + c.KeyMgmt}
 		if refuse {
@@ -118,6 +118,7 @@ func TestC17Wire(t *testing.T) {
 			Packets: rapid.IntRange(4, 40).Draw(rt, "packets"),
 			Size:    rapid.SampledFrom([]int{40, 64, 200, 1000, 1400}).Draw(rt, "size"),
 		}
+		c.PlainPeer = rapid.IntRange(0, 2).Draw(rt, "plain_peer") == 0
 		if c.Reader == "udp" {
 			n := rapid.IntRange(0, 4).Draw(rt, "ntamper")
 			for i := 0; i < n; i++ {
@@ -125,7 +126,7 @@ func TestC17Wire(t *testing.T) {
 			}
 			c.Bit = rapid.IntRange(0, 8*1500).Draw(rt, "tamper_bit")
 		}
-		st, err := pbt.Safe(runWire, c)
+		st, err := pbt.SafeJ("C17", "wire", runWire, c)
 		if st == nil {
 			st = &wireStats{}
 		}
@@ -135,6 +136,9 @@ func TestC17Wire(t *testing.T) {
 		}
 		if st.Switched {
 			labels = append(labels, "switched-udp-to-tcp")
+		}
+		if st.PlainPeer {
+			labels = append(labels, "second-reader-with-plain-profile")
 		}
 		pbt.Count("C17", "packets_on_wire", int64(st.OnWire))
 		pbt.Count("C17", "packets_delivered", int64(st.Delivered))
